@@ -2,6 +2,7 @@ package main
 
 import (
 	"fmt"
+	"go/token"
 	"sort"
 	"strings"
 
@@ -17,6 +18,7 @@ func init() {
 			"(R-C16-WHOLEFILE) on open the buffer's offset is set to len(buf) before t.data is taken, so the whole file is visible; every Buffer literal keeps curSz == len(buf) (shared with C11), so growth after reopen computes sizes from the real mapping; " +
 			"(R-C16-PAGEFIT) reinit's frontier scan looks only at pages that lie entirely inside t.data (the repaired finding F5); " +
 			"(R-C16-TWOPASS) reinit counts free pages and collects their links in a pass that does not modify the tail-page marks it is reading; the marks of pointed-to pages are applied afterwards and the head search runs last; " +
+			"(R-C16-STATS) the incrementally maintained key count agrees with reinit's recount: node.set returns 1 exactly on the paths that raise numKeys, and Tree.set adds that result to stats.NumLeafKeys; " +
 			"(R-C16-FREELIST) recycled pages are handed out once: the free-list pop/push ordering rules of C10 hold.",
 		Variants: func(tier string) []Variant {
 			if tier == "thorough" {
@@ -78,6 +80,76 @@ func runC16(c *Ctx) {
 	L.Rule("R-C16-FREELIST", "free-list pop/push ordering (shared with C10)", 3)
 
 	closePathRule(c)
+
+	L.Rule("R-C16-STATS", "the live key count is what reinit recounts: node.set reports 1 exactly when it raised numKeys, and Tree.set adds exactly that to stats.NumLeafKeys", 2)
+	c.Group("R-C16-STATS", "node.set#numAdded", func() {
+		fn := P.Fn("z", "node", "set")
+		L.Analysed(fname(fn))
+		tb := newTB(fn)
+		paths, ok := explore(fn, tb, ExploreOpts{Start: entryPos(fn)})
+		if !ok {
+			L.Undecided("R-C16-STATS", "node.set#numAdded", "too many paths", fn.Pos())
+			return
+		}
+		good, n := true, 0
+		for _, p := range paths {
+			ret, isRet := p.End.(*ssa.Return)
+			if !isRet {
+				continue
+			}
+			rv := returnValues(ret)
+			if len(rv) != 1 {
+				L.Undecided("R-C16-STATS", "node.set#numAdded", "node.set does not return one value", fn.Pos())
+				return
+			}
+			k, known := pathConst(p, rv[0])
+			raised := p.Count(func(in ssa.Instruction) bool {
+				cl, isCall := in.(*ssa.Call)
+				return isCall && Match("call[z.node.setNumKeys](p[0],add(call[z.node.numKeys](p[0]),c[1]))", tb.T(cl), nil)
+			})
+			n++
+			if !known || raised > 1 || (k == "1") != (raised == 1) || (k != "0" && k != "1") {
+				good = false
+				L.Fail("R-C16-STATS", "node.set#numAdded", fmt.Sprintf("on block path %s node.set returns %s (known=%v) but raised numKeys %d time(s): the caller adds the result to stats.NumLeafKeys, so the live count drifts from what a reopen recounts", p.BlockPath(), k, known, raised), ret.Pos())
+				break
+			}
+		}
+		if good {
+			L.Check(n > 0, "R-C16-STATS", "node.set#numAdded", fmt.Sprintf("returns 1 exactly on the %d path(s) that raise numKeys by one", n), "no returning path", fn.Pos())
+		}
+	})
+	c.Group("R-C16-STATS", "Tree.set#NumLeafKeys", func() {
+		fn := P.Fn("z", "Tree", "set")
+		L.Analysed(fname(fn))
+		tb := newTB(fn)
+		n := 0
+		for _, st := range fieldStoresIn(fn, "TreeStats", "NumLeafKeys") {
+			n++
+			vt := tb.T(st.Val)
+			if !Match("add(fld[NumLeafKeys](fld[stats](p[0])),call[z.node.set](_,p[2],p[3]))", vt, nil) && !Match("add(call[z.node.set](_,p[2],p[3]),fld[NumLeafKeys](fld[stats](p[0])))", vt, nil) {
+				L.Fail("R-C16-STATS", "Tree.set#NumLeafKeys", "stats.NumLeafKeys is updated with "+vt.String()+", not with += n.set(k, v)", st.Pos())
+				return
+			}
+		}
+		// every leaf insertion is counted: each node.set(k, v) with the caller's key and value feeds the counter
+		for _, ci := range callsTo(fn, "z.node.set") {
+			cl := ci.(*ssa.Call)
+			if tb.T(cl.Call.Args[1]).String() != "p[2]" || tb.T(cl.Call.Args[2]).String() != "p[3]" {
+				continue // child-pointer bookkeeping in inner nodes
+			}
+			used := false
+			for _, r := range *cl.Referrers() {
+				if bo, isB := r.(*ssa.BinOp); isB && bo.Op == token.ADD {
+					used = true
+				}
+			}
+			if !used {
+				L.Fail("R-C16-STATS", "Tree.set#NumLeafKeys", "the result of the leaf insertion n.set(k, v) is not added to stats.NumLeafKeys", cl.Pos())
+				return
+			}
+		}
+		L.Check(n == 1, "R-C16-STATS", "Tree.set#NumLeafKeys", "stats.NumLeafKeys += n.set(k, v) at the leaf", fmt.Sprintf("%d stores to stats.NumLeafKeys in Tree.set", n), fn.Pos())
+	})
 
 	c.Group("R-C16-REBUILD", "NewTreePersistent", func() {
 		maintained := map[string]bool{}
